@@ -343,7 +343,7 @@ func (p *Parser) parseArg(info *pOpcodeInfo, curObj *Object, argType pArgType) (
 		p.objTree.detach(curObj, scope)
 		return scope, parseResultOk
 	default: // pArgTypeTarget, pArgTypeSimpleName, pArgTypeSuperName:
-		return p.parseTarget()
+		return p.parseTargetOf(curObj)
 	}
 }
 
@@ -509,6 +509,11 @@ func (p *Parser) parseSimpleArg(argType pArgType) (*Object, parseResult) {
 //
 // UserTermObj is a control method invocation.
 func (p *Parser) parseTarget() (*Object, parseResult) {
+	return p.parseTargetOf(nil)
+}
+
+// parseTargetOf parses a Target that is an operand of parentObj.
+func (p *Parser) parseTargetOf(parentObj *Object) (*Object, parseResult) {
 	// Peek next opcode
 	origOffset := p.r.Offset()
 	nextOp, res := p.nextOpcode()
@@ -523,7 +528,17 @@ func (p *Parser) parseTarget() (*Object, parseResult) {
 			// This is a SuperName or a Type6Opcode
 			obj := p.objTree.newObject(nextOp, p.tableHandle)
 			obj.amlOffset = origOffset
-			return obj, p.parseObjectArgs(obj)
+			if parentObj == nil {
+				return obj, p.parseObjectArgs(obj)
+			}
+
+			// Attach obj to parentObj while its own operands are parsed so
+			// that name lookups for nested operands can walk up the tree; the
+			// caller attaches the returned object at its final position.
+			p.objTree.append(parentObj, obj)
+			res = p.parseObjectArgs(obj)
+			p.objTree.detach(parentObj, obj)
+			return obj, res
 		default:
 			// Unexpected opcode
 			return nil, parseResultFailed
